@@ -570,6 +570,8 @@ def gen_cfg(rng, lr_only=False):
         opts["tables"] = t
     if kind == "lr" and rng.random() < 0.4:
         opts["build_tree"] = True
+    if rng.random() < 0.06:
+        opts["debug"] = True  # tracing output (to /dev/null): must not change what is loaded
     return {"kind": kind, "opts": opts}
 
 
